@@ -44,6 +44,7 @@ def shards(tier, seed):
     out.append(("child_prod_NIST192p", dict(kind="prod", cname="NIST192p", nvalid=3, lz=False, _pyopt="opt")))
     out.append(("child_prod_SECP112r2", dict(kind="prod", cname="SECP112r2", nvalid=3, lz=False, _pyopt="opt+hashseed")))
     out.append(("child_toy", dict(kind="toy", part=0, parts=4, pmax=19, ncurves=2, _pyopt="opt")))
+    out.append(("child_bb_prod_NIST224p", dict(kind="prod", cname="NIST224p", nvalid=2, lz=False, _pyopt="bb")))
     out.append(("near_recursion_limit", dict(kind="near_limit")))
     return out
 
